@@ -563,6 +563,41 @@ def run_case(ctx):
                   {'what': 'dirichlet'})
         ctx.check(len(val) == len(ind), 'dirichlet-values', 'values/indices length mismatch', {'what': 'dirichlet'})
 
+    # ---- assembled system = sum over patches of the per-patch systems scattered through the (already
+    # validated) local-to-global maps: every complex kind, also after partial delivery
+    if e.chance(25 if ctx.tier == 'quick' else 40):
+        def fsrc(*x):
+            return 1.0 + x[0] - 0.5 * x[-1]
+        which = e.pick(['mass', 'stiffness'])
+        mk = (lambda: vform.mass_vf(dim)) if which == 'mass' else (lambda: vform.stiffness_vf(dim))
+        r = ctx.call('assemble_system', MPf.assemble_system, mk(), vform.L2functional_vf(dim, physical=True), f=fsrc)
+        if r is ctx_raised():
+            return
+        A, b = r
+        wantA = np.zeros((nclasses, nclasses))
+        wantb = np.zeros(nclasses)
+        for p in range(npatch):
+            kvs_p, geo_p = cx['patches'][p]
+            Ap = assemble.assemble(mk(), kvs_p, geo=geo_p).toarray()
+            bp = assemble.assemble(vform.L2functional_vf(dim, physical=True), kvs_p, geo=geo_p, f=fsrc).ravel()
+            ii = np.asarray(idxs[p], dtype=int)
+            np.add.at(wantA, (ii[:, None], ii[None, :]), Ap)
+            np.add.at(wantb, ii, bp)
+        ctx.count('assemble_system.vs-patch-sum')
+        okshape = (A.shape == wantA.shape and np.asarray(b).shape == wantb.shape)
+        ctx.check(okshape, 'assemble-shape', 'assemble_system returned shapes %s, %s for %d glued dofs'
+                  % (A.shape, np.asarray(b).shape, nclasses), {'what': 'assemble'})
+        if okshape:
+            Ad = A.toarray()
+            sc = max(1e-300, np.abs(wantA).max())
+            ctx.check(np.abs(Ad - wantA).max() <= 1e-11 * sc, 'assemble-matrix-patch-sum',
+                      lambda: '%s matrix of the %s complex differs from the sum of the per-patch matrices scattered through '
+                      'patch_to_global_idx by %.3g (scale %.3g)' % (which, cx['desc']['kind'], np.abs(Ad - wantA).max(), sc),
+                      {'what': 'assemble'})
+            ctx.check(np.abs(np.asarray(b) - wantb).max() <= 1e-11 * max(1e-300, np.abs(wantb).max()), 'assemble-rhs-patch-sum',
+                      lambda: 'right-hand side differs from the scattered per-patch vectors by %.3g' % np.abs(np.asarray(b) - wantb).max(),
+                      {'what': 'assemble'})
+
     # ---- assembled system equals the undivided single-patch system (box complexes, all delivered)
     if all_delivered and cx['desc']['kind'].startswith('box') and e.chance(20 if ctx.tier == 'quick' else 40):
         desc = cx['desc']
